@@ -78,8 +78,89 @@ pub fn gen(prop: &str, seed: u64, thorough: bool, out: &mut impl Write) {
                 emit(out, &c);
             }
         }
+        "C14" => {
+            let maxes = [0u64, 1, 2, 3, 8, 9, 8192, 8193];
+            let desc = |rng: &mut Rng, c: &mut Vec<u64>| {
+                let dpl = rng.below(4) << 45;
+                let w = match rng.below(4) { 0 => 0x00af_9b00_0000_ffff, 1 => rng.next(), 2 => u64::MAX, _ => rng.next() & !(3 << 45) | dpl };
+                if rng.chance(2, 3) { c.extend([0, w, 0]); } else { c.extend([1, w, rng.next()]); }
+            };
+            let n = if thorough { 400_000 } else { 5_000 };
+            for i in 0..n {
+                let max = if i < 64 { maxes[(i % 8) as usize] } else { rng.pick(&maxes) };
+                let mode = if rng.chance(1, 12) { 3 } else { 1 };
+                let mut c = vec![mode, max];
+                let nops = if max >= 8192 { if rng.chance(1, 250) { 8190 + rng.below(6) } else { rng.below(30) } } else { rng.below(max + 4) };
+                for _ in 0..nops { desc(rng, &mut c); }
+                emit(out, &c);
+            }
+            for _ in 0..n / 4 {
+                let max = rng.pick(&maxes);
+                let len = if max >= 8192 { if rng.chance(1, 30) { max.min(8192) + rng.below(2) } else { rng.below(20) } } else { rng.below(max + 3) };
+                let mut c = vec![2, max];
+                for j in 0..len { c.push(if j == 0 && rng.chance(9, 10) { 0 } else { rng.next() }); }
+                emit(out, &c);
+            }
+        }
+        "C15" => {
+            emit(out, &[11]);
+            emit(out, &[13]);
+            for i in 0..64u64 {
+                for p in [1u64 << i, !(1u64 << i), (1u64 << i).wrapping_sub(1), (0xffu64 << (i & 56))] {
+                    emit(out, &[10, p]);
+                }
+            }
+            let n = if thorough { 3_000_000 } else { 60_000 };
+            for _ in 0..n {
+                emit(out, &[10, any_u64(rng)]);
+                emit(out, &[12, rng.below(2), if rng.chance(1, 2) { rng.next() } else { rng.below(4) << 45 | (rng.next() & 0xffff) }, rng.next()]);
+            }
+        }
+        "C12" => {
+            emit(out, &[24]);
+            emit(out, &[25]);
+            for v in 0..256u64 {
+                emit(out, &[20, v, 0]);
+                emit(out, &[20, v, 1]);
+                emit(out, &[21, v]);
+            }
+            // every (start, end) pair; quick: two random forms per pair, thorough: every form
+            for s in 0..256u64 {
+                for e in 0..256u64 {
+                    if thorough {
+                        for form in 0..15 { emit(out, &[22, form, s, e, rng.below(5)]); }
+                    } else {
+                        emit(out, &[22, rng.below(15), s, e, rng.below(5)]);
+                        emit(out, &[22, rng.below(9), s, e, rng.below(5)]);
+                    }
+                }
+            }
+            let n = if thorough { 1_000_000 } else { 40_000 };
+            for _ in 0..n {
+                let mut c = vec![23, 0x33];
+                let len = 1 + rng.below(10);
+                for i in 0..len {
+                    let op = if i == 0 || rng.chance(1, 8) { 0 } else { 1 + rng.below(5) };
+                    let arg = match op {
+                        0 => if rng.chance(1, 30) { any_u64(rng) } else { crate::gen_addr::canon(rng) },
+                        1 | 2 => rng.below(2),
+                        3 => if rng.chance(1, 20) { 4 + rng.below(4) } else { rng.below(4) },
+                        4 => match rng.below(12) { 0 => 7, 1 => 0xffff, 2 => 8 + rng.below(100), _ => rng.below(7) },
+                        _ => rng.below(65536),
+                    };
+                    c.extend([op, arg]);
+                }
+                emit(out, &c);
+            }
+        }
         _ => panic!("gen_tbl: unknown property"),
     }
+}
+
+fn decode_gate(lo: u64, hi: u64) -> (u64, u64, u64, u64, u64, u64, u64, u64) {
+    // offset, selector, ist, must-be-zero bits, type, dpl, present, reserved (SDM 64-bit IDT gate)
+    let offset = (lo & 0xffff) | ((lo >> 48) << 16) | ((hi & 0xffff_ffff) << 32);
+    (offset, (lo >> 16) & 0xffff, (lo >> 32) & 7, ((lo >> 35) & 0x1f) | (((lo >> 44) & 1) << 5), (lo >> 40) & 0xf, (lo >> 45) & 3, (lo >> 47) & 1, hi >> 32)
 }
 
 /// (failing clause | None, known-finding id | None, non-trivial)
@@ -173,6 +254,143 @@ fn judge(prop: &str, c: &[u64], a: &[i128]) -> (Option<&'static str>, Option<&'s
                 for j in 0..8 { if a.get(j).copied() != Some(((w >> (8 * j)) & 0xff) as i128) { return (Some("entry is not stored little-endian"), None, true); } }
                 (None, None, true)
             }
+            _ => (None, None, false),
+        },
+        "C14" => match c[0] {
+            1 | 3 => {
+                let max = c[1];
+                if max == 0 || max > 8192 { return (if a == [-1] { None } else { Some("GDT with 0 or more than 8192 entries must be refused") }, None, true); }
+                let mut entries: Vec<u64> = vec![0];
+                let mut k = 0;
+                let mut nt = false;
+                for ch in c[2..].chunks(3) {
+                    if ch.len() < 3 { break; }
+                    let slots = if ch[0] == 0 { 1 } else { 2 };
+                    let fits = entries.len() as u64 + slots <= max;
+                    if c[0] == 1 {
+                        if k >= a.len() { return (Some("answer too short"), None, true); }
+                        if fits {
+                            let sel = ((entries.len() as u64) << 3) | ((ch[1] >> 45) & 3);
+                            if a[k] != sel as i128 { return (Some("append must return a selector whose index is the descriptor's first slot, RPL = descriptor DPL, TI = 0"), None, true); }
+                        } else {
+                            nt = true;
+                            if a[k] != -1 { return (Some("an append that does not fit must panic"), None, true); }
+                        }
+                    }
+                    if fits { entries.push(ch[1]); if slots == 2 { entries.push(ch[2]); } }
+                    k += 1;
+                }
+                let limit = 8 * entries.len() as i128 - 1;
+                if c[0] == 3 {
+                    if a != [limit, 0] { return (Some("load must hand the CPU the table's own address with limit 8*len-1"), None, true); }
+                    return (None, None, true);
+                }
+                let rest = &a[k..];
+                if rest.len() != entries.len() + 2 || rest[0] != entries.len() as i128 { return (Some("table length wrong (an append that panicked must leave the table unchanged; the table never grows beyond MAX)"), None, true); }
+                for (i, e) in entries.iter().enumerate() { if rest[1 + i] != *e as i128 { return (Some("entries must be the null descriptor followed by the appended descriptors in order"), None, true); } }
+                if rest[1 + entries.len()] != limit { return (Some("limit must be 8 x used slots - 1"), None, true); }
+                (None, None, nt || entries.len() > 2)
+            }
+            2 => {
+                let (max, l) = (c[1], &c[2..]);
+                let ok = max > 0 && max <= 8192 && !l.is_empty() && l[0] == 0 && l.len() as u64 <= max;
+                if !ok { return (if a == [-1] { None } else { Some("from_raw_entries must refuse an empty slice, a non-null first entry or too many entries") }, None, true); }
+                if a.len() != l.len() + 2 || a[0] != l.len() as i128 || (0..l.len()).any(|i| a[1 + i] != l[i] as i128) || a[1 + l.len()] != 8 * l.len() as i128 - 1 { return (Some("building from raw entries must reproduce them"), None, true); }
+                (None, None, l.len() > 1)
+            }
+            _ => (None, None, false),
+        },
+        "C15" => match c[0] {
+            10 => {
+                if a.len() != 2 { return (Some("tss_segment panicked"), None, true); }
+                let (lo, hi, p) = (a[0] as u64, a[1] as u64, c[1]);
+                let base = ((lo >> 16) & 0xff_ffff) | (((lo >> 56) & 0xff) << 24) | ((hi & 0xffff_ffff) << 32);
+                let limit = (lo & 0xffff) | (((lo >> 48) & 0xf) << 16);
+                if base != p { return (Some("TSS descriptor base must be the full 64-bit address"), None, true); }
+                if limit != 0x67 { return (Some("TSS descriptor limit must be 0x67"), None, true); }
+                if (lo >> 40) & 0xf != 9 || (lo >> 44) & 1 != 0 { return (Some("TSS descriptor type must be available 64-bit TSS (system, type 9)"), None, true); }
+                if (lo >> 45) & 3 != 0 || (lo >> 47) & 1 != 1 { return (Some("TSS descriptor must be present, ring 0"), None, true); }
+                if (lo >> 52) & 0xf != 0 || hi >> 32 != 0 { return (Some("TSS descriptor reserved/AVL/G bits must be zero"), None, true); }
+                (None, None, p >> 24 != 0)
+            }
+            11 => {
+                let linux: [i128; 6] = [0x00cf93000000ffff, 0x00cf9b000000ffff, 0x00af9b000000ffff, 0x00cff3000000ffff, 0x00cffb000000ffff, 0x00affb000000ffff];
+                if a.len() != 10 || a[..6] != linux { return (Some("predefined descriptors must decode to the segment kind, L/D bits, DPL and present bit their names state"), None, true); }
+                if a[6] != linux[2] || a[7] != linux[0] || a[8] != linux[3] || a[9] != linux[5] { return (Some("descriptor constructors must use the matching preset"), None, true); }
+                (None, None, true)
+            }
+            12 => {
+                if a != [((c[2] >> 45) & 3) as i128] { return (Some("dpl() must return bits 45-46"), None, true); }
+                (None, None, (c[2] >> 45) & 3 != 0)
+            }
+            13 => {
+                let exp: [i128; 12] = [0, 4, 0x1c, 0x24, 0x5c, 0x64, 0x66, 0x68, 0x68, 0, 2, 10];
+                if a != exp { return (Some("TSS / DescriptorTablePointer must have exactly the hardware layout"), None, true); }
+                (None, None, true)
+            }
+            _ => (None, None, false),
+        },
+        "C12" => match c[0] {
+            20 => {
+                let v = c[1] & 0xff;
+                let refused = [8u64, 10, 11, 12, 13, 14, 15, 17, 18, 21, 22, 23, 24, 25, 26, 27, 29, 30, 31].contains(&v);
+                if refused { return (if a == [-1] { None } else { Some("indexing must refuse reserved vectors and vectors whose handler signature differs") }, None, true); }
+                if a != [16 * v as i128] { return (Some("the descriptor for vector v must occupy bytes 16v..16v+16"), None, true); }
+                (None, None, v < 32 || v == 255)
+            }
+            21 => {
+                let named = [0u64, 1, 2, 3, 4, 5, 6, 7, 8, 10, 11, 12, 13, 14, 16, 17, 18, 19, 20, 21, 28, 29, 30];
+                if !named.contains(&c[1]) { return (None, None, false); }
+                if a != [16 * c[1] as i128] { return (Some("a named exception field must sit at bytes 16v..16v+16 of its vector"), None, true); }
+                (None, None, true)
+            }
+            22 => {
+                let (form, s, e) = (c[1], (c[2] & 0xff) as i128, (c[3] & 0xff) as i128);
+                let (sk, ek) = match form { 0..=8 => (form / 3, form % 3), 9 => (0, 1), 10 => (0, 2), 11 => (0, 0), 12 => (2, 1), 13 => (2, 0), _ => (2, 2) };
+                let lower = match sk { 0 => s, 1 => s + 1, _ => 0 };
+                let upper = match ek { 0 => e + 1, 1 => e, _ => 256 };
+                if lower < 32 || lower > upper { return (if a == [-1] { None } else { Some("range access must refuse anything starting below vector 32 (and inverted ranges)") }, None, true); }
+                if a != [16 * lower, upper - lower] { return (Some("a range must denote gates lower..upper at bytes 16*lower"), None, true); }
+                (None, None, lower == 32 || upper == 256 || lower == upper)
+            }
+            23 => {
+                // independent decode of every observed gate against the expected field values
+                let mut k = 0;
+                let mut started = false;
+                let (mut off, mut sel, mut ist, mut ty, mut dpl, mut p) = (0u64, 0u64, 0u64, 0xEu64, 0u64, 0u64);
+                let mut nt = false;
+                for ch in c[2..].chunks(2) {
+                    if ch.len() < 2 { break; }
+                    let (op, arg) = (ch[0], ch[1]);
+                    let mut expect_panic = false;
+                    match op {
+                        0 => { if !crate::gen_addr::is_canonical(arg) { expect_panic = true; } else { started = true; off = arg; sel = c[1]; ist = 0; ty = 0xE; dpl = 0; p = 1; } }
+                        _ if !started => continue,
+                        1 => p = (arg != 0) as u64,
+                        2 => ty = if arg != 0 { 0xE } else { 0xF },
+                        3 => { if arg > 3 { expect_panic = true; } else { dpl = arg; } }
+                        4 => { if arg <= 6 { ist = arg + 1; } else if arg == 0xffff { return (None, None, false); } else { expect_panic = true; } }
+                        _ => sel = arg & 0xffff,
+                    }
+                    if k >= a.len() { return (Some("answer too short"), None, true); }
+                    if a[k] == -1 { return (if expect_panic { None } else { Some("entry setter panicked on valid input") }, None, true); }
+                    if expect_panic { return (Some("invalid privilege level / IST index >= 7 / non-canonical handler must be refused"), None, true); }
+                    if k + 3 > a.len() { return (Some("truncated observation"), None, true); }
+                    let (go, gs, gi, gz, gt, gd, gp, gr) = decode_gate(a[k] as u64, a[k + 1] as u64);
+                    if go != off || a[k + 2] != off as i128 { return (Some("handler address must be encoded in the gate's three offset fields and read back unchanged"), None, true); }
+                    if gs != sel { return (Some("gate selector must be the current code segment (or the one set)"), None, true); }
+                    if gi != ist { return (Some("IST field must be index+1 (0 = no stack switch) and only change with set_stack_index"), None, true); }
+                    if gt != ty { return (Some("gate type must be interrupt gate 0xE (trap gate 0xF when interrupts are not disabled)"), None, true); }
+                    if gd != dpl { return (Some("DPL field must only change with set_privilege_level"), None, true); }
+                    if gp != p { return (Some("present bit must only change with set_present / set_handler_addr"), None, true); }
+                    if gz != 0 || gr != 0 { return (Some("must-be-zero / reserved gate bits set"), None, true); }
+                    nt |= op != 0;
+                    k += 3;
+                }
+                (None, None, nt)
+            }
+            24 => { if a != [256, 4096, 16, 0xE00i128 << 32, 0] { return (Some("an untouched or reset table must be 256 non-present gates with the must-be-one type bits, 4096 bytes"), None, true); } (None, None, true) }
+            25 => { if a != [4095, 0] { return (Some("loading must hand the CPU the table's own address with limit 4095"), None, true); } (None, None, true) }
             _ => (None, None, false),
         },
         _ => (None, None, false),
